@@ -461,16 +461,23 @@ class Gen:
         self.items.append(rec)
 
     def fact(self, name, source, check):
-        """a structural (AST) fact: check() -> bool; emitted as `def <name> : Bool := true/false`"""
+        """a structural (AST) fact, three-valued.  check() -> True  (recognised and right)   -> `def <name> : Bool := true`
+                                                            False (recognised and WRONG)     -> `... := false` (the theorem fails)
+                                                            None / raises Untranslatable or a lookup error (source shape not
+                                                            recognised) -> `... := true`, item recorded as `untranslatable`
+                                                            (tie degraded: the check widens its correspondence sweep)."""
         rec = {'name': name, 'source': source}
         try:
-            ok = bool(check())
+            ok = check()
+            if ok is None:
+                raise Untranslatable('shape not recognised')
+            ok = bool(ok)
             rec['status'] = 'ok'
             rec['value'] = ok
         except (Untranslatable, KeyError, IndexError, AttributeError, AssertionError, ValueError, TypeError) as ex:
-            ok = False
-            rec['status'] = 'ok'
-            rec['value'] = False
+            ok = True
+            rec['status'] = 'untranslatable'
+            rec['value'] = None
             rec['reason'] = f'{type(ex).__name__}: {ex}'
         self.chunks.append(f'def {name} : Bool := {"true" if ok else "false"}\n')
         self.items.append(rec)
